@@ -65,10 +65,7 @@ E4 == G(4, {})
 C5 == G(5, {<<1, 2>>, <<2, 3>>, <<3, 4>>, <<4, 5>>, <<5, 1>>})
 P5 == G(5, {<<1, 2>>, <<2, 3>>, <<3, 4>>, <<4, 5>>})
 K4P == G(5, {<<1, 2>>, <<1, 3>>, <<1, 4>>, <<2, 3>>, <<2, 4>>, <<3, 4>>, <<4, 5>>})   \* K4 plus a pendant vertex
-C6 == G(6, {<<1, 2>>, <<2, 3>>, <<3, 4>>, <<4, 5>>, <<5, 6>>, <<6, 1>>})
-R6 == G(6, {<<1, 2>>, <<2, 3>>, <<3, 4>>, <<4, 5>>, <<5, 6>>, <<1, 3>>, <<2, 5>>})   \* no non-trivial symmetry
 GraphsQ == {E3, P3, P4, C4, Star4, E4}
-Graphs6 == {R6}
 GraphsT == {C5, K4P, P5}
 GraphsC5 == {C5}
 GraphsK4P == {K4P}
